@@ -20,7 +20,7 @@
 From Coq Require Import List ZArith Bool String.
 From ApiFu Require Val.Values Val.CoerceModel Val.CoerceSpec Val.CoerceCheck.
 From ApiFu Require Import Base.Sexp Cost.CostModel Cost.CostSpec Cost.CostArgs Cost.CostTrace.
-From ApiFu Require Cost.CostArgsProofs.
+From ApiFu Require Cost.CostArgsProofs Val.BridgeC04 Val.BridgeC04Proofs Vld.ValidatorModel.
 Import ListNotations.
 Open Scope string_scope.
 Open Scope Z_scope.
@@ -787,6 +787,27 @@ Definition field_facts (E : Values.env) (defs : list Values.vardef) (f : afield 
   && forallb (fun ad => CoerceSpec.default_ok E (snd ad)) (af_argdefs f)
   && CostArgsProofs.field_usage_ok ctxT E defs f.
 
+(** C04's per-node checks on the translation of a field selection ([CostC04.c04_node_silent]) *)
+Definition c04_node_ok (E : Values.env) (f : afield ctxT) : bool :=
+  match fst (ValidatorModel.args_node ValidatorModel.repaired ValidatorModel.id_order []
+               (BridgeC04.tr_args 0 (af_args f)) (BridgeC04.tr_argdefs (af_argdefs f)) (0%N, 0%N)) with
+  | [] => true
+  | _ => false
+  end
+  && forallb (fun a : Values.name * Values.lit =>
+                match Values.aget (fst a) (af_argdefs f) with
+                | Some d => BridgeC04.c04_accepts E (snd a) (Values.in_type d) true
+                | None => true
+                end) (af_args f).
+Definition c04_defaults_ok (E : Values.env) (defs : list Values.vardef) : bool :=
+  forallb (fun d => match Values.vd_default d with
+                    | Some l => CoerceModel.type_known E (Values.vd_type d) && BridgeC04.c04_accepts E l (Values.vd_type d) true
+                    | None => true
+                    end) defs.
+Definition c04_nodes_ok (E : Values.env) (defs : list Values.vardef) (frs : list (bytes * anode ctxT)) (body : anode ctxT) : bool :=
+  BridgeC04.bridgeable E && BridgeC04Proofs.no_float E && c04_defaults_ok E defs
+  && forallb (c04_node_ok E) (reachable_fields frs body).
+
 Definition request_facts (E : Values.env) (defs : list Values.vardef) (frs : list (bytes * anode ctxT)) (body : anode ctxT) : bool :=
   CoerceSpec.env_ok E
   && negb (CoerceModel.has_dup (map Values.vd_name defs))
@@ -893,6 +914,11 @@ Definition check (c : sexp) : sexp :=
                                              | None => false
                                              end
                       then v_mismatch "validated-document-violates-theorem-hypotheses" []
+                      else if (std =? 0) && match chosen_op ctxT aops opname with
+                                             | Some ao => negb (c04_nodes_ok E (ao_vardefs ao) afrs (ao_body ao))
+                                             | None => false
+                                             end
+                      then v_mismatch "validated-document-fails-c04-node-checks" []
                       else if match obs_calls, o with
                               | Some cs, Obs _ _ _ _ => negb (calls_match (snd mt0) cs)
                               | _, _ => false
@@ -906,7 +932,7 @@ Definition check (c : sexp) : sexp :=
                               ++ (if existsb (sexp_exists (is_field_with is_gen)) body then ["list-or-object-argument"] else [])
                               ++ (match xvars with [] => [] | _ => ["list-or-object-variable-value-given"] end)
                               ++ (if (std =? 0) && match chosen_op ctxT aops opname with Some _ => true | None => false end
-                                  then ["theorem-hypotheses-hold"] else [])
+                                  then ["theorem-hypotheses-hold"; "c04-node-checks-silent"] else [])
                               ++ (match field1 "varshape" l with
                                   | Some (SSym sh) =>
                                       if String.eqb sh "map" then []
